@@ -26,7 +26,7 @@ DEFAULT_FEATURES = {
     "refined": 4, "cls": 6, "list": 2, "annlist": 3, "tuple": 0, "union": 1, "dependent": 0, "flaky": 0,
     "weights": 0, "nested": 1, "standalone": 1, "unreachable": 1, "plain": 1, "infeasible": 0,
     "max_abstract": 3, "max_classes": 9, "max_fields": 3, "future_annotations": 0, "concrete_start": 0,
-    "base_in_list": 1, "finite": 0, "nested_generic": 0, "nested_list": 0, "deep_chain": 0, "self_ref": 0, "multi_dependent": 0, "abstract_weights": 0, "nested_start": 0, "hollow": 0, "barren": 0, "falsy": 0, "wide_weights": 0, "inherited_ctor": 0, "zero_rules": 0,
+    "base_in_list": 1, "finite": 0, "nested_generic": 0, "nested_list": 0, "deep_chain": 0, "self_ref": 0, "multi_dependent": 0, "abstract_weights": 0, "nested_start": 0, "hollow": 0, "barren": 0, "falsy": 0, "wide_weights": 0, "inherited_ctor": 0, "zero_rules": 0, "union_generic": 0,
 }
 
 
@@ -158,6 +158,12 @@ def gen_type(H: Chooser, feat, refs, level=0, allow_dependent_on=None, finite=Fa
             t = gen_type(H, feat, refs, level + 2, finite=finite)
             if t not in alts:
                 alts.append(t)
+        if feat.get("union_generic") and refs and H.draw(3) == 0:
+            # a generic member next to class / base members: Union[A, list[B]], Union[int, tuple[B, bool]]
+            x = ["cls", H.pick(refs)]
+            g = H.pick([["list", x], ["ann", ["list", x], ["ListSizeBetween", 1, 2]], ["tuple", [x, ["bool"]]]])
+            if g not in alts and not (finite and g[0] == "list"):
+                alts.append(g)
         if len(alts) < 2:
             return alts[0]
         return ["union", alts]
